@@ -47,8 +47,24 @@ class Tables:
         node = self.kwmod.assigns.get('SQL_REGEX')
         if node is None:
             raise AnalysisError('keywords.SQL_REGEX not found')
-        if not isinstance(node, (ast.List, ast.Tuple)):
-            raise AnalysisError('keywords.SQL_REGEX is no longer a list/tuple display')
+        def rows(n, depth=0):
+            """the row displays of a table written as a display, a concatenation of displays, or names of such"""
+            if isinstance(n, (ast.List, ast.Tuple)):
+                out = []
+                for e in n.elts:
+                    if isinstance(e, ast.Starred):
+                        out += rows(e.value, depth + 1)
+                    else:
+                        out.append(e)
+                return out
+            if isinstance(n, ast.BinOp) and isinstance(n.op, ast.Add):
+                return rows(n.left, depth + 1) + rows(n.right, depth + 1)
+            if isinstance(n, ast.Name) and n.id in self.kwmod.assigns and depth < 6:
+                return rows(self.kwmod.assigns[n.id], depth + 1)
+            if isinstance(n, ast.Call) and isinstance(n.func, ast.Name) and n.func.id in ('list', 'tuple') and len(n.args) == 1:
+                return rows(n.args[0], depth + 1)
+            raise AnalysisError('keywords.SQL_REGEX is no longer a list/tuple display (or a concatenation of displays)')
+        node = ast.List(elts=rows(node), ctx=ast.Load())
         self.lex = []
         f = self.ctx.folder
         try:
